@@ -114,6 +114,7 @@ class Engine:
         self.track_loads = track_loads
         self.data = data or {}                  # symbol -> bytes (initial contents of data objects)
         self.data_addr = {}                     # symbol -> address
+        self.data_relocs = {}                   # symbol -> [(offset, target symbol, addend)]: pointers stored in data objects
         self.funcs_run = set()
         self.unknown = 0
 
@@ -176,6 +177,12 @@ class Engine:
                 for i, b in enumerate(content):
                     m = z3.Store(m, BV(addr + i, 64), BV(b, 8))
                 st.mem = m
+                for off, tgt, add in self.data_relocs.get(sym, ()):
+                    ptr = self.data_address(st, tgt) + add
+                    m = st.mem
+                    for i in range(8):
+                        m = z3.Store(m, BV(addr + off + i, 64), BV((ptr >> (8 * i)) & 0xff, 8))
+                    st.mem = m
         return addr
 
     def push_frame(self, st, fname, args, ret_dsts=None):
